@@ -29,7 +29,7 @@ def gen_cfg(quick):
     return "SPECIFICATION Spec\nCONSTANTS\n  ReqSpace <- %s\n  RespSpace <- %s\n" % sp
 
 
-ALL = ["F5", "F6", "F7", "HEAD", "METRIC", "ABORT", "CLONE"]
+ALL = ["F5", "F6", "F7", "HEAD", "METRIC", "ABORT", "CLONE", "MULTI"]
 
 
 def par_cfg(fixed, space, p):
@@ -112,22 +112,30 @@ def _pair(ctx, vecs):
     strata = {"plain": [v for v in resps if not v["s"]["cache"] and not v["s"]["short"]],
               "cache": [v for v in resps if v["s"]["cache"]],
               "short": [v for v in resps if v["s"]["short"]],
+              # gzip bodies made of several members
+              "multi": [v for v in resps if v["s"]["bmem"] > 1],
               # run with several exchanges in flight at the same time: scenarios in which a body travels (what can overlap are bodies
               # under way), two thirds of them without a memory cache (a hit asks no backend)
               "par": [v for j, v in enumerate(v for v in resps if v["parOk"] and not v["s"]["head"] and v["s"]["bsize"] > 0)
                       if not v["s"]["cache"] or j % 3 == 0]}
+    # request scenarios by stratum (assigned by the generator): "lb" the load-balancing policies x the pool's dimensions,
+    # "target" the path / query classes, "main" the rest; each stratum is cycled through in (seeded) random order
+    rstrata = {k: [v for v in reqs if v["stratum"] == k] for k in ("main", "lb", "target")}
+    reqs = rstrata["main"]
     nofail = [v for v in reqs if v["s"]["fails"] == 0]
-    if not all(strata.values()):
-        ctx.inconclusive("vector generation produced no scenario for one of the strata %s" % sorted(strata))
+    if not all(strata.values()) or not all(rstrata.values()):
+        ctx.inconclusive("vector generation produced no scenario for one of the strata %s %s" % (sorted(strata), sorted(rstrata)))
     n = 1200 if ctx.quick else 12000
     bodyless = [v for v in reqs if v["s"]["rbody"] == "none"]
     cases = []
-    taken = {k: 0 for k in strata}
+    taken = {k: 0 for k in list(strata) + list(rstrata)}
     for i in range(n):
-        st = ("plain", "cache", "plain", "short", "plain", "cache", "par", "plain", "cache", "plain", "short", "par")[i % 12]
+        st = ("plain", "cache", "plain", "short", "multi", "cache", "par", "plain", "cache", "plain", "short", "par")[i % 12]
         pv = strata[st][taken[st] % len(strata[st])]
         taken[st] += 1
-        rv = reqs[i % len(reqs)]
+        rst = ("main", "lb", "main", "target", "main", "main")[i % 6]
+        rv = rstrata[rst][taken[rst] % len(rstrata[rst])]
+        taken[rst] += 1
         if st == "par" and nofail:
             rv = nofail[i % len(nofail)]
         if pv["s"]["head"] and rv["s"]["rbody"] != "none":
@@ -156,15 +164,17 @@ def _sig(case, clause, k=1):
         if clause in ("reach", "path", "query"):
             sig.update(pathcls=case["req"]["pathcls"], querycls=case["req"]["querycls"])
         if clause in ("reach", "reqbody", "method"):
-            sig.update(ra=rs["ra"], reqMode=rs["reqMode"], rbody=rs["rbody"], renc=rs["renc"], retried=rs["fails"] > 0)
+            sig.update(ra=rs["ra"], reqMode=rs["reqMode"], rbody=rs["rbody"], renc=rs["renc"], retried=rs["fails"] > 0,
+                       members=rs["rmem"], lb=rs["lb"])
         if clause in ("reqe2e", "reqhop"):
             sig.update(hshape=rs["hshape"], ra=rs["ra"], rahdr=rs["rahdr"], retried=rs["fails"] > 0)
         if clause == "host":
-            sig.update(addr=rs["addr"], keepHost=rs["keepHost"])
+            sig.update(addr=rs["addr"], keepHost=rs["keepHost"], lb=rs["lb"])
         return sig
     sig = {"dir": "resp", "clause": clause}
     sig.update({k: ps[k] for k in ("comp", "rsa", "rsahdr", "respMode", "ae", "head", "bframing", "benc", "cache", "short")})
     sig["empty"] = ps["bsize"] == 0
+    sig["members"] = ps["bmem"]          # gzip members of the backend's body
     sig["notModified"] = ps["status"] == 304
     sig["overlapping"] = case["par"] > 0 and k > 1     # one of several exchanges in flight at the same time
     sig["finalLabel"] = case["exps"][min(k, len(case["exps"])) - 1]["clabel"]    # Content-Encoding the model predicts at the client
@@ -202,6 +212,17 @@ def _mbt(ctx):
     if (hits < 10 or broken < 10) and not crashed:
         ctx.inconclusive("only %d memory-cache hits and %d broken backend responses were exercised" % (hits, broken))
     ctx.log("%d exchanges answered from the memory cache, %d backend responses that break off" % (hits, broken))
+    # ... bodies of several gzip members through a decompressing adaptor, every load-balancing policy with a host-name server, targets
+    # that begin with an empty segment
+    multi = sum(1 for e in events if (by_id[e["case"]]["resp"]["s"]["bmem"] > 1 and by_id[e["case"]]["resp"]["s"]["rsa"] == "decompress")
+                or (by_id[e["case"]]["req"]["s"]["rmem"] > 1 and by_id[e["case"]]["req"]["s"]["ra"] == "decompress"))
+    lbname = {by_id[e["case"]]["req"]["s"]["lb"] for e in events if by_id[e["case"]]["req"]["s"]["addr"] == "name" and e["bs"]}
+    lead = sum(1 for e in events if (e["c"].get("targetText") or "").startswith("//"))
+    if (multi < 5 or len(lbname) < 7 or lead < 5) and not crashed:
+        ctx.inconclusive("only %d multi-member gzip bodies through a decompressing adaptor, load-balancing policies %s with host-name servers, "
+                         "%d targets that begin with an empty segment were exercised" % (multi, sorted(lbname), lead))
+    ctx.log("%d multi-member gzip bodies through a decompressing adaptor; policies with host-name servers: %s; %d targets beginning with '//'" % (
+        multi, sorted(lbname), lead))
     # ... exchanges that really overlapped (every backend answer under way before any was completed) and whose body the proxy compressed
     over = [e for e in events if e.get("overlap")]
     overgz = [e for e in over if e["cr"]["body"]["label"] == "gzip" and e["br"]["body"]["label"] != "gzip"]
